@@ -3,7 +3,7 @@ From Coq Require Import ZArith QArith Qcanon List Bool Permutation.
 Require Import QV.C02.Spec QV.C02.Model QV.C02.Proofs QV.C02.Proofs2 QV.C02.Proofs3.
 Require Import QV.C02.Stack QV.C02.ProofsStack QV.C02.Merge QV.C02.ProofsMerge QV.C02.Rewrite QV.C02.ProofsRw QV.C02.ProofsAccept.
 Require Import QV.C02.Flatten QV.C02.ProofsFlat QV.C02.Vol QV.C02.ProofsVol QV.C02.Params QV.C02.ProofsParams.
-Require Import QV.C02.ProofsAtomic.
+Require Import QV.C02.ProofsAtomic QV.C02.ProofsR5.
 Import ListNotations.
 Open Scope Qc_scope.
 
@@ -13,13 +13,23 @@ Open Scope Qc_scope.
    nesting, repetition counts, ranges, parameters and mappings. *)
 Theorem C02_windows : forall p en mm prog,
   create_program p en mm = Program prog -> Permutation (loop_windows prog) (denote p en mm).
-Proof. intros p en mm prog H. apply (create_program_windows p en mm prog H). Qed.
+Proof. exact windows_perm. Qed.
 Print Assumptions C02_windows.
+
+(* TOTAL form (round 5): the hypothesis "a program is produced" of C02_windows is not a loophole - every assignment with
+   nothing to object to (Spec.must_accept, defined on the template alone) for which the template plays anything DOES get
+   a program, with the template's duration and exactly the denoted windows *)
+Theorem C02_windows_total : forall p en mm,
+  must_accept p en = true -> plays p en = true ->
+  exists prog, create_program p en mm = Program prog /\ ldur prog = tdur p en /\
+               Permutation (loop_windows prog) (denote p en mm).
+Proof. exact windows_total. Qed.
+Print Assumptions C02_windows_total.
 
 (* ... and the program lasts as long as the template says *)
 Theorem C02_duration : forall p en mm prog,
   create_program p en mm = Program prog -> ldur prog = tdur p en.
-Proof. intros p en mm prog H. apply (create_program_windows p en mm prog H). Qed.
+Proof. exact program_duration. Qed.
 Print Assumptions C02_duration.
 
 (* no program is produced exactly when the template plays nothing (then it denotes no window either) *)
@@ -29,7 +39,7 @@ Proof. exact create_program_none. Qed.
 Print Assumptions C02_empty.
 
 Theorem C02_empty_denotes_nothing : forall p en mm, plays p en = false -> denote p en mm = [] /\ tdur p en = 0.
-Proof. intros p en mm H. split; [now apply denote_noplay | now apply tdur_noplay]. Qed.
+Proof. exact empty_denotes_nothing. Qed.
 Print Assumptions C02_empty_denotes_nothing.
 
 (* corollary: if every declaration lies inside its own node (Spec.inside), every reported window lies inside
@@ -63,8 +73,9 @@ Print Assumptions C02_windows_after_cleanup.
 
 (* the independent additive reading of a Loop (body played rep times one after the other; oracle of the hand-built
    loop cases, Corr.exec_windows) is exactly what _get_measurement_windows' tiling computes *)
-Theorem C02_loop_windows_additive : forall l, QV.C02.Corr.exec_windows l = loop_windows l.
-Proof. exact exec_windows_eq. Qed.
+Theorem C02_loop_windows_additive : forall l,
+  QV.C02.Corr.exec_dur l = ldur l /\ QV.C02.Corr.exec_windows l = loop_windows l.
+Proof. exact exec_reading_eq. Qed.
 Print Assumptions C02_loop_windows_additive.
 
 (* ---- round 2: the Python stack machine ------------------------------------------------------------------------------ *)
@@ -89,11 +100,7 @@ Print Assumptions C02_stack_program.
 Theorem C02_stack_windows : forall p en mm prog,
   check p en mm = None -> sm_program p en mm = Some (Some prog) ->
   ldur prog = tdur p en /\ Permutation (loop_windows prog) (denote p en mm).
-Proof.
-  intros p en mm prog Hc H. rewrite stack_program in H. injection H as H.
-  assert (Hp : create_program p en mm = Program prog) by (unfold create_program; rewrite Hc, H; reflexivity).
-  destruct (create_program_windows p en mm prog Hp) as (_ & Hd & Hw). auto.
-Qed.
+Proof. exact stack_windows. Qed.
 Print Assumptions C02_stack_windows.
 
 (* ---- round 2: MappingPT's constructor-time merging ----------------------------------------------------------------------- *)
@@ -102,7 +109,7 @@ Print Assumptions C02_stack_windows.
    what the tree as written does - for every environment and mapping *)
 Theorem C02_mapping_merge : forall p en mm,
   plays (norm p) en = plays p en /\ tdur (norm p) en = tdur p en /\ denote (norm p) en mm = denote p en mm.
-Proof. intros p en mm. destruct (norm_sem p en mm) as (A & B & _ & D). auto. Qed.
+Proof. exact mapping_merge. Qed.
 Print Assumptions C02_mapping_merge.
 
 Theorem C02_mapping_merge_program : forall p en mm prog,
@@ -120,7 +127,7 @@ Print Assumptions C02_mapping_merge_complete.
 Theorem C02_merge_composes : forall pm2 pm1 mml2 mml1 en mm,
   (forall x, menv (merge_pm pm2 pm1) en x = menv pm1 (menv pm2 en) x) /\
   (forall k, mcomp (merge_mm mml2 mml1) mm k = mcomp mml1 (mcomp mml2 mm) k).
-Proof. intros. split; [apply menv_merge | apply mcomp_merge]. Qed.
+Proof. exact merge_composes. Qed.
 Print Assumptions C02_merge_composes.
 
 (* ---- round 2: windows under the structural rewrites of Loop ----------------------------------------------------------------- *)
@@ -174,7 +181,7 @@ Proof. exact unroll_children_refuted. Qed.
 Print Assumptions C02_unroll_children_keeps_windows_refuted.
 
 (* ... and true under the executable guard "the rewritten loop has no own windows to lose" *)
-Definition guard_C02_rewrite_drops_own_measurements (r : rw) (l : loop) : bool := is_nil (lost_rw r l).
+(* guard_C02_rewrite_drops_own_measurements r l := is_nil (lost_rw r l)   (Rewrite.v) *)
 Theorem C02_rewrites_preserve : forall r l l',
   apply_rw r l = Some l' ->
   match r with
@@ -184,11 +191,7 @@ Theorem C02_rewrites_preserve : forall r l l',
   end ->
   guard_C02_rewrite_drops_own_measurements r l = true ->
   ldur l' = ldur l /\ Permutation (loop_windows l') (loop_windows l).
-Proof.
-  intros r l l' H Hs Hg. destruct (apply_rw_spec r l l' H Hs) as [R1 R2]. split; [exact R1|].
-  unfold guard_C02_rewrite_drops_own_measurements in Hg. destruct (lost_rw r l); [|discriminate].
-  now rewrite app_nil_r in R2.
-Qed.
+Proof. exact rewrites_preserve. Qed.
 Print Assumptions C02_rewrites_preserve.
 Example C02_rewrites_preserve_nonvacuous :
   let c := Loop 2 None [] [Loop 3 (Some (Q2Qc 2)) [(0%N, Q2Qc 0, Q2Qc 1)] []; Loop 1 (Some (Q2Qc 1)) [] []] in
@@ -217,7 +220,7 @@ Proof. vm_compute. reflexivity. Qed.
    negative begin / length, equal durations inside atomic composites) passes every check: never Rejected *)
 Theorem C02_accepts : forall p en mm,
   must_accept p en = true -> check p en mm = None /\ forall k, create_program p en mm <> Rejected k.
-Proof. intros p en mm H. split; [now apply must_accept_checks | now apply must_accept_not_rejected]. Qed.
+Proof. exact accepts. Qed.
 Print Assumptions C02_accepts.
 
 Theorem C02_must_accept_iff_no_violation : forall p en, must_accept p en = true <-> viol p en = [].
@@ -229,11 +232,7 @@ Print Assumptions C02_must_accept_iff_no_violation.
    "window outside [0, duration of its node]" is not among the kinds - the code never checks it (C02_outside_is_accepted) *)
 Theorem C02_refusal_is_legitimate : forall p en mm k,
   create_program p en mm = Rejected k -> In (kclass k) (viol p en).
-Proof.
-  intros p en mm k H. unfold create_program in H. destruct (check p en mm) as [k'|] eqn:E.
-  - injection H as <-. now apply (check_viol p en mm).
-  - destruct (to_program _); discriminate.
-Qed.
+Proof. exact refusal_is_legitimate. Qed.
 Print Assumptions C02_refusal_is_legitimate.
 
 (* ---- round 2: volatile repetition counts ------------------------------------------------------------------------------- *)
@@ -245,18 +244,7 @@ Theorem C02_volatile_update_refuted :
   exists p en en2 mm ws,
     (forall x, x <> 5%N -> en x = en2 x) /\ updated_windows p en en2 mm = Some ws /\
     ~ Permutation ws (denote p en2 mm).
-Proof.
-  exists (Seq [] [Rep [] (EV 5%N) (Atom false (EC (Q2Qc 2)) [(0%N, EC (Q2Qc 0), EC (Q2Qc 1))]);
-                  Atom false (EC (Q2Qc 1)) [(1%N, EC (Q2Qc 0), EC (Q2Qc 1))]]).
-  exists (fun _ => Q2Qc 2), (fun x => if N.eqb x 5 then Q2Qc 3 else Q2Qc 2), Some.
-  eexists. split; [|split].
-  - intros x Hx. destruct (N.eqb_spec x 5); [contradiction | reflexivity].
-  - vm_compute. reflexivity.
-  - intro H. apply Permutation_sym in H.
-    apply (Permutation_in (1%N, Q2Qc 6, Q2Qc 1)) in H.
-    + vm_compute in H. repeat (destruct H as [H|H]; [inversion H|]). exact H.
-    + vm_compute. do 3 right. left. reflexivity.
-Qed.
+Proof. exact volatile_update_refuted. Qed.
 Print Assumptions C02_volatile_update_refuted.
 
 (* ---- round 3: flatten_and_balance is a sequence of the modelled rewrites ------------------------------------------------- *)
@@ -265,7 +253,7 @@ Print Assumptions C02_volatile_update_refuted.
    steps it logged - for every loop, depth and fuel: a theorem of the model, no longer a per-run replay *)
 Theorem C02_flatten_is_rewrite_sequence : forall fuel d l l' st,
   flatten_and_balance fuel d l = Some (l', st) -> exists lost, run_seq st l = Some (l', lost).
-Proof. intros fuel d l l' st H. exact (fab_is_run_seq fuel d 0 l l' st H). Qed.
+Proof. exact (fun fuel d => fab_is_run_seq fuel d 0). Qed.
 Print Assumptions C02_flatten_is_rewrite_sequence.
 
 (* hence (C02_rewrite_sequences) it keeps the duration, adds and moves nothing; what disappears are own windows of
@@ -275,6 +263,22 @@ Theorem C02_flatten_windows : forall fuel d l l' st,
   ldur l' = ldur l /\ exists lost, Permutation (loop_windows l' ++ lost) (loop_windows l).
 Proof. exact fab_windows. Qed.
 Print Assumptions C02_flatten_windows.
+(* round 5: the side conditions need not be assumed for loops whose inner nodes carry no waveform (ProofsR5.nowf;
+   implied by Proofs3.wfl, which holds of every program the builder produces): all rewrites flatten_and_balance performs
+   satisfy them, and the result is again such a loop ... *)
+Theorem C02_flatten_side_conditions_hold : forall fuel d l l' st,
+  nowf l = true -> flatten_and_balance fuel d l = Some (l', st) ->
+  sides_ok st l = true /\ nowf l' = true /\ ldur l' = ldur l /\
+  exists lost, run_seq st l = Some (l', lost) /\ Permutation (loop_windows l' ++ lost) (loop_windows l).
+Proof. exact fab_windows_nowf. Qed.
+Print Assumptions C02_flatten_side_conditions_hold.
+(* ... so for every program built from a template: flatten_and_balance keeps the template's duration, adds and moves
+   nothing; what it no longer reports (`lost`: own windows of loops it unrolled, known finding) completes the denoted windows *)
+Theorem C02_flatten_program_windows : forall p en mm prog fuel d l' st,
+  create_program p en mm = Program prog -> flatten_and_balance fuel d prog = Some (l', st) ->
+  ldur l' = tdur p en /\ exists lost, Permutation (loop_windows l' ++ lost) (denote p en mm).
+Proof. exact fab_program_windows. Qed.
+Print Assumptions C02_flatten_program_windows.
 Example C02_flatten_nonvacuous :
   let c := Loop 2 None [(0%N, Q2Qc 1, Q2Qc 1)] [Loop 3 (Some (Q2Qc 2)) [(1%N, Q2Qc 0, Q2Qc 1)] []; Loop 1 (Some (Q2Qc 1)) [] []] in
   let l := Loop 1 None [(2%N, Q2Qc 0, Q2Qc 1)] [Loop 1 (Some (Q2Qc 1)) [] []; Loop 1 None [] [c]] in
@@ -291,10 +295,10 @@ Proof. vm_compute. reflexivity. Qed.
    tree recomputed from scratch with the new counts.  The count of any loop satisfying this may change freely, in
    particular the windows inside a volatile repetition tile with the new count. *)
 Theorem C02_volatile_follows : forall a b, vwok a b = true -> vwin a b = loop_windows (zip_rep a b).
-Proof. intros a b. exact (vwok_windows a b). Qed.
+Proof. exact vwok_windows. Qed.
 Print Assumptions C02_volatile_follows.
 Theorem C02_volatile_unchanged : forall a b, stable a b = true -> vwin a b = loop_windows a /\ zip_rep a b = a.
-Proof. intros a b H. split; [now apply stable_vwin | now apply stable_zip]. Qed.
+Proof. exact volatile_unchanged. Qed.
 Print Assumptions C02_volatile_unchanged.
 (* the guard is satisfiable with a real change, and it cannot simply be dropped *)
 Example C02_volatile_follows_nonvacuous :
@@ -304,7 +308,7 @@ Example C02_volatile_follows_nonvacuous :
   vwok a b && negb (Nat.eqb (length (vwin a b)) (length (loop_windows a))) = true.
 Proof. exact vwok_nonvacuous. Qed.
 Theorem C02_volatile_guard_needed : exists a b, vwok a b = false /\ vwin a b <> loop_windows (zip_rep a b).
-Proof. eexists. eexists. exact vwok_guard_needed. Qed.
+Proof. exact volatile_guard_needed. Qed.
 Print Assumptions C02_volatile_guard_needed.
 
 (* ---- round 3: the declared parameters suffice ------------------------------------------------------------------------------ *)
@@ -316,10 +320,7 @@ Theorem C02_declared_parameters_suffice : forall p en en',
   (forall x, In x (params p) -> en x = en' x) -> forall mm,
   plays p en = plays p en' /\ tdur p en = tdur p en' /\ denote p en mm = denote p en' mm /\
   to_program (build p en mm fresh) = to_program (build p en' mm fresh).
-Proof.
-  intros p en en' H mm. destruct (params_suffice p en en' H) as (A & B & _ & D & E & _).
-  repeat split; auto. now rewrite E.
-Qed.
+Proof. exact declared_parameters_suffice. Qed.
 Print Assumptions C02_declared_parameters_suffice.
 
 (* ---- round 4: wrappers around atomic parts inside atomic composites ------------------------------------------------------ *)
